@@ -9,6 +9,7 @@ package main
 
 import (
 	"context"
+	"strings"
 	"net"
 	"sync"
 	"time"
@@ -19,7 +20,9 @@ import (
 
 var useUDP bool
 
-const udpAttemptTimeout = 40 * time.Millisecond
+// long enough that a reply on loopback is never taken for lost on a loaded machine; lost replies cost this much each, so
+// ops with lost replies are sampled more thinly
+const udpAttemptTimeout = 200 * time.Millisecond
 
 type udpRelay struct {
 	conn *net.UDPConn
@@ -103,8 +106,12 @@ func genUDP(g *genCtx) {
 					skip = true
 				}
 			}
+			lost := 0
+			for _, x := range op.Args {
+				lost += strings.Count(","+x+",", ",L,")
+			}
 			k++
-			if skip || k%every[name] != 0 {
+			if skip || k%every[name] != 0 || lost > 1 || (lost == 1 && (k/every[name])%3 != 0) {
 				continue
 			}
 			op.Kind = name + "u"
